@@ -307,8 +307,8 @@ func (w *World) mapHeapNames(m *types.Map) (val, dom, ln string) {
 		vs = SBool // struct{} values carry no information
 	}
 	val = "M_" + sanitize(string(ks)) + "_" + sanitize(string(vs))
-	dom = "MD_" + sanitize(string(ks))
-	ln = "ML"
+	dom = "MD_" + sanitize(string(ks)) + "_" + sanitize(string(vs))
+	ln = "ML_" + sanitize(string(ks)) + "_" + sanitize(string(vs))
 	if _, ok := w.heapSort[val]; !ok {
 		w.heapSort[val] = SArray(SLoc, SArray(ks, vs))
 	}
